@@ -49,6 +49,9 @@ func main() {
 		rep = suiteScript(*tier, *seed, *model)
 	case "C03":
 		rep = suiteChunk("C03", "", *tier, *seed, *model)
+		rep.Merge(suiteSenAgree(*tier, *seed))
+	case "C03s":
+		rep = suiteSenAgree(*tier, *seed)
 	case "C02":
 		rep = suiteParse("C02", *tier, *seed, *model, map[string]bool{"value": true})
 	case "C06":
